@@ -4,10 +4,41 @@ import sys
 import traceback
 
 
+def domain_check(prop, target, tier, seed):
+    """bounded stand-in / engine cross-check: the executable form of the contract evaluated on the
+    real function over the contract's stated native domain"""
+    from . import native, modelval, contract as C
+
+    c = [x for x in C.BY_PROP[prop] if x.target == target][0]
+    dom = c.native_domain(tier, seed)
+    n = 0
+    nontrivial = 0
+    failures = []
+    samples = []
+    for inputs in dom["cases"]:
+        r = native.run_case(c, inputs)
+        if r["status"] == "pre-false":
+            continue
+        n += 1
+        nontrivial += 1
+        if len(samples) < 3:
+            samples.append(modelval.to_json(inputs))
+        if r["status"] != "pass" and len(failures) < 5:
+            failures.append({"target": target, "inputs": modelval.to_json(inputs), "clause": ",".join(r.get("failed", [])) or r.get("detail"), "observed": r.get("observed")})
+    return {"kind": "bounded", "evaluations": n, "distinct_nontrivial": nontrivial, "failures": failures, "exhaustive": False,
+            "bound": dom.get("bound"), "domain": dom.get("domain"), "samples": samples}
+
+
 def main(prop, name, tier, seed):
     from . import cli, contract as C
 
     cli.load_contracts(prop)
+    if name.startswith("domain:"):
+        try:
+            print("RESULT " + json.dumps(domain_check(prop, name[7:], tier, int(seed)), default=str))
+        except Exception:
+            print("RESULT " + json.dumps({"error": traceback.format_exc()[-4000:]}))
+        return
     chk = [n for n in C.NATIVE_CHECKS.get(prop, []) if n["name"] == name][0]
     try:
         r = chk["fn"](tier, int(seed))
